@@ -108,11 +108,11 @@ def _exit_kind(cmd) -> int:
             partitions_thorough=[f"tk == {t} and nw == {n}" for t in range(4) for n in (1, 2)] + [f"tk == 4 and kind == {k} and nw == {n}" for k in range(6) for n in (1, 2)],
             what="reducer: at most one exit command per tick; it is preceded by exactly one terminal publish of the matching class "
                  "(the very StopEvent / exception it carries), nothing is published after it, is_running' False except cancel",
-            bounds={"num_workers": "1..2", "queue": "0..2", "ticks": "cancel/timeout/add/waiter-timeout/idle-check/step-result x6", "policy": "None/0/delay"})
+            bounds={"num_workers": "1..2", "queue": "0..2", "ticks": "cancel/timeout/add/waiter-timeout/idle-check/step-result x6", "policy": "None/0/delay/raises"})
 def ob_exit_shape(nw: int, b0: bool, b1: bool, q: int, wk: int, tk: int, kind: int, pol: int, bb: bool, bq: int) -> bool:
     """
     pre: 1 <= nw <= 2 and world_ab_valid(nw, b0, b1, False, q, bb, bq) and q <= 2 and bq <= 1
-    pre: 0 <= wk <= 3 and 0 <= tk <= 4 and 0 <= kind <= 5 and 0 <= pol <= 2
+    pre: 0 <= wk <= 3 and 0 <= tk <= 4 and 0 <= kind <= 5 and 0 <= pol <= 3
     pre: tk != 4 or b0
     post: _
     """
